@@ -179,15 +179,19 @@ func NewSchemaFrom(name string, rd io.Reader, exts ...omniparser.Extension) (s o
 	return s, "", ""
 }
 
-// JSONLogExtension registers the sample custom file format "jsonlog" the way a caller does.
-func JSONLogExtension(schemaName string) omniparser.Extension {
-	return omniparser.Extension{
-		CreateSchemaHandler: omniv21.CreateSchemaHandler,
-		CreateSchemaHandlerParams: &omniv21.CreateParams{
-			CustomFileFormats: []fileformat.FileFormat{jsonlogformat.NewJSONLogFileFormat(schemaName)},
-		},
-		CustomFuncs: customfuncs.Merge(customfuncs.CommonCustomFuncs, v21cf.OmniV21CustomFuncs),
-	}
+// JSONLogExtension registers the sample custom file format "jsonlog" the way a caller does: one
+// Extension value, made once, used for every NewSchema call of the process (also concurrent ones).
+// The list of custom file formats is a slice with room to spare, as slices built with append are.
+func JSONLogExtension(string) omniparser.Extension {
+	return jsonLogExtension
+}
+
+var jsonLogExtension = omniparser.Extension{
+	CreateSchemaHandler: omniv21.CreateSchemaHandler,
+	CreateSchemaHandlerParams: &omniv21.CreateParams{
+		CustomFileFormats: append(make([]fileformat.FileFormat, 0, 16), jsonlogformat.NewJSONLogFileFormat("sim-schema")),
+	},
+	CustomFuncs: customfuncs.Merge(customfuncs.CommonCustomFuncs, v21cf.OmniV21CustomFuncs),
 }
 
 // NewTransform calls Schema.NewTransform under recover.
